@@ -18,7 +18,7 @@ TraceNext ==
             /\ st' = [n \in Node |-> InitNode(n)] /\ net' = {} /\ clock' = 0
             /\ ledger' = [n \in Node |-> <<>>] /\ mid' = [n \in Node |-> FALSE]
             /\ panic' = FALSE /\ hist' = <<>>
-            /\ freshN' = 0 /\ freshAt' = -1 /\ topHb' = 0 /\ arrivals' = 0 /\ ftimes' = <<>> /\ deadEval' = -1
+            /\ GhostReset
        [] e.a = "Inject"   -> Arrive(e.msg.digest[X].hb) /\ PostOk(e) /\ "panic" \notin DOMAIN e
        [] e.a = "Liveness" -> Evaluate /\ PostOk(e)
        [] e.a = "Advance"  -> Tick(e.d)
